@@ -27,7 +27,7 @@ done
 export GIT_DIR=/verif/.git GIT_WORK_TREE=$snap GIT_INDEX_FILE=$snap.index
 rm -f $GIT_INDEX_FILE
 git read-tree HEAD
-git add -A -- . ':!evidence' ':!replays'
+git add -A -- . ':!evidence'
 git commit -q -m "$msg" && echo "snapcommit: committed $(git rev-parse --short HEAD)"
 unset GIT_DIR GIT_WORK_TREE GIT_INDEX_FILE
 git -C /verif reset -q
